@@ -234,10 +234,33 @@ def ensure_makefile():
         raise RuntimeError("mkproject failed: " + out)
 
 
+STALE_RE = re.compile(r"inconsistent assumptions|is corrupted|bad magic|Bad magic|compiled library|"
+                      r"End_of_file|input_value|truncated object|No rule to make target", re.I)
+
+
+def coq_clean():
+    """Remove every compiled Coq artefact (a partially written or stale .vo is not evidence of
+    anything about the property; the files are rebuilt from the sources)."""
+    for root, _, files in os.walk(COQ):
+        for f in files:
+            if f.endswith((".vo", ".vok", ".vos", ".glob", ".aux")) or f in (".Makefile.d", "Makefile", "Makefile.conf", "_CoqProject"):
+                try:
+                    os.remove(os.path.join(root, f))
+                except OSError:
+                    pass
+
+
 def coq_build(targets, timeout=3000):
-    """make the given .vo targets; returns (ok, log)."""
+    """make the given .vo targets; returns (ok, log).  A failure that comes from damaged or stale
+    build products (interrupted earlier build, copied half-written files) is repaired by one
+    clean rebuild of the targets from the sources."""
     ensure_makefile()
     rc, out = sh(["make", "-j16"] + targets, cwd=COQ, timeout=timeout)
+    if rc != 0 and STALE_RE.search(out):
+        coq_clean()
+        ensure_makefile()
+        rc, out2 = sh(["make", "-j16"] + targets, cwd=COQ, timeout=timeout)
+        out = out[-800:] + "\n[clean rebuild]\n" + out2
     return rc == 0, out
 
 
